@@ -247,11 +247,11 @@ func ruleC17R2(w *World, r *Report) {
 	}
 	// --- Preorder closures: ok = ok && yield(n) ---
 	n := 0
-	for _, f := range w.ModFns {
-		if fnPkgPath(f) != modRoot+"/ast" || f.Parent() == nil || f.Parent().Parent() == nil {
+	for _, outer := range w.ModFns {
+		if fnPkgPath(outer) != modRoot+"/ast" || outer.Parent() == nil || outer.Parent().Parent() != nil {
 			continue
 		}
-		root := f.Parent().Parent()
+		root := outer.Parent()
 		o := root
 		if root.Origin() != nil {
 			o = root.Origin()
@@ -260,6 +260,38 @@ func ruleC17R2(w *World, r *Report) {
 			continue
 		}
 		n++
+		construct := "closure of " + funcName(root)
+		// the traversal call and the callback it is given
+		var cb ssa.Value
+		for _, b := range outer.Blocks {
+			for _, in := range b.Instrs {
+				c, ok := in.(*ssa.Call)
+				if !ok {
+					continue
+				}
+				callee := c.Call.StaticCallee()
+				if callee == nil {
+					continue
+				}
+				name := callee.Name()
+				if callee.Origin() != nil {
+					name = callee.Origin().Name()
+				}
+				if (name == "Inspect" || name == "InspectMany") && len(c.Call.Args) == 2 {
+					cb = c.Call.Args[1]
+				}
+			}
+		}
+		mc, isClosure := cb.(*ssa.MakeClosure)
+		if cb == nil {
+			r.bad(rule, construct, w.pos(outer.Pos()), "does not traverse with Inspect/InspectMany")
+			continue
+		}
+		if !isClosure {
+			r.bad(rule, construct, w.pos(outer.Pos()), "yield is handed to Inspect directly: Inspect prunes only the subtree when the callback returns false and goes on with the siblings, so yield is called again after it returned false (range-over-func panics)")
+			continue
+		}
+		f := mc.Fn.(*ssa.Function)
 		// the closure calls yield only on the path where the captured ok is true, stores the conjunction, returns it
 		var yieldCall *ssa.Call
 		for _, b := range f.Blocks {
@@ -288,7 +320,6 @@ func ruleC17R2(w *World, r *Report) {
 				}
 			}
 		}
-		construct := "closure of " + funcName(root)
 		if good {
 			r.ok(rule, construct, w.pos(f.Pos()), "yield is called only while the captured flag is still true (ok = ok && yield(n))")
 		} else {
